@@ -29,6 +29,9 @@ from ..core.types import Capability
 # Safety limits
 MAX_EXPRESSION_LENGTH = 10000  # Characters
 MAX_AST_DEPTH = 50  # Nesting levels
+MAX_INT_BITS = 16384  # Largest integer result the evaluator will build
+MAX_SEQUENCE_LENGTH = 1_000_000  # Largest string/list/tuple built by repetition
+MAX_FACTORIAL_ARG = 1000
 
 class MetabolicPathway(Enum):
     """
@@ -309,6 +312,7 @@ class Mitochondria:
         """
         self._operations_count += 1
         start_time = time.time()
+        self._deadline = start_time + self.timeout
 
         # Safety: Reject overly long expressions
         if len(expression) > MAX_EXPRESSION_LENGTH:
@@ -517,8 +521,28 @@ class Mitochondria:
 
         raise ValueError(f"Cannot parse as JSON or Python literal: {expression[:50]}...")
 
+    def _check_operation_size(self, op_type: type, left: Any, right: Any) -> None:
+        """Refuse operations whose result would be enormous (they cannot be interrupted once started)."""
+        ints = isinstance(left, int) and isinstance(right, int)
+        if op_type is ast.Pow and ints and right > 0:
+            if left.bit_length() * right > MAX_INT_BITS:
+                raise ValueError("Result too large")
+        elif op_type is ast.Add:
+            if isinstance(left, (str, bytes, list, tuple)) and isinstance(right, (str, bytes, list, tuple)):
+                if len(left) + len(right) > MAX_SEQUENCE_LENGTH:
+                    raise ValueError("Result too large")
+        elif op_type is ast.Mult:
+            if ints and left.bit_length() + right.bit_length() > MAX_INT_BITS:
+                raise ValueError("Result too large")
+            for seq, count in ((left, right), (right, left)):
+                if isinstance(seq, (str, bytes, list, tuple)) and isinstance(count, int):
+                    if len(seq) * count > MAX_SEQUENCE_LENGTH:
+                        raise ValueError("Result too large")
+
     def _compute_node(self, node: ast.AST) -> Any:
         """Recursively compute AST nodes safely."""
+        if time.time() > getattr(self, "_deadline", float("inf")):
+            raise TimeoutError(f"Computation exceeded {self.timeout}s")
 
         # Constants (numbers, strings, etc.)
         if isinstance(node, ast.Constant):
@@ -531,6 +555,7 @@ class Mitochondria:
             op = self.SAFE_OPERATORS.get(type(node.op))
             if op is None:
                 raise ValueError(f"Unsupported operator: {type(node.op).__name__}")
+            self._check_operation_size(type(node.op), left, right)
             return op(left, right)
 
         # Unary operations (-, +)
@@ -553,6 +578,8 @@ class Mitochondria:
                     if any(kw.arg is None for kw in node.keywords):
                         raise ValueError("Keyword unpacking not supported")
                     kwargs = {kw.arg: self._compute_node(kw.value) for kw in node.keywords}
+                    if func_name == 'factorial' and args and isinstance(args[0], int) and args[0] > MAX_FACTORIAL_ARG:
+                        raise ValueError("Result too large")
                     if callable(func):
                         return func(*args, **kwargs)
                     return func  # Constants like pi, e
